@@ -8,19 +8,24 @@ open Acl Expand
 
 theorem leafLoop_found_index {ctx : Ctx} {op : Operation} {path : Path} {e : Endpoint} {c : Cluster}
     {la : Option (Nat × Nat × Nat)} {ls : List Leaf} {li li' : Nat} {leaf : Leaf}
-    (h : leafLoop ctx op path e c la ls li = .found li' leaf) : li < li' ∧ li' ≤ li + ls.length := by
+    (h : leafLoop ctx op path e c la ls li = .found li' leaf) :
+    li < li' ∧ li' ≤ li + ls.length ∧ ls[li' - li - 1]? = some leaf := by
   induction ls generalizing li with
   | nil => simp [leafLoop] at h
   | cons x xs ih =>
     unfold leafLoop at h
-    have step : leafLoop ctx op path e c la xs (li + 1) = .found li' leaf → li < li' ∧ li' ≤ li + (x :: xs).length := by
+    have step : leafLoop ctx op path e c la xs (li + 1) = .found li' leaf →
+        li < li' ∧ li' ≤ li + (x :: xs).length ∧ (x :: xs)[li' - li - 1]? = some leaf := by
       intro hh
-      have := ih hh
+      obtain ⟨a, b, c'⟩ := ih hh
       simp only [List.length_cons]
-      omega
+      refine ⟨by omega, by omega, ?_⟩
+      have : li' - li - 1 = (li' - (li + 1) - 1) + 1 := by omega
+      rw [this, List.getElem?_cons_succ]
+      exact c'
     split at h
     · split at h
-      · injection h with h1 _; subst h1; simp
+      · injection h with h1 h2; subst h1; subst h2; simp
       · split at h
         · cases h
         · exact step h
@@ -49,16 +54,18 @@ theorem mC_drop_le (op : Operation) (cs : List Cluster) (ci : Nat) : mC op (cs.d
 theorem clusterLoop_found_measure {ctx : Ctx} {op : Operation} {path : Path} {e : Endpoint}
     {la : Option (Nat × Nat × Nat)} {cs : List Cluster} {ci li ci' li' : Nat} {c : Cluster} {leaf : Leaf}
     (h : clusterLoop ctx op path e la cs ci li = .found ci' li' c leaf) :
-    ∃ j, ci' = ci + j ∧ mC op (cs.drop j) li' < mC op cs li := by
+    ∃ j, ci' = ci + j ∧ mC op (cs.drop j) li' < mC op cs li ∧ (j = 0 → li < li') ∧
+      cs[j]? = some c ∧ 0 < li' ∧ (c.leaves (op == .invoke))[li' - 1]? = some leaf := by
   induction cs generalizing ci li with
   | nil => simp [clusterLoop] at h
   | cons x xs ih =>
     unfold clusterLoop at h
     have step : ∀ li2, clusterLoop ctx op path e la xs (ci + 1) li2 = .found ci' li' c leaf →
-        ∃ j, ci' = ci + j ∧ mC op ((x :: xs).drop j) li' < mC op (x :: xs) li := by
+        ∃ j, ci' = ci + j ∧ mC op ((x :: xs).drop j) li' < mC op (x :: xs) li ∧ (j = 0 → li < li') ∧
+          (x :: xs)[j]? = some c ∧ 0 < li' ∧ (c.leaves (op == .invoke))[li' - 1]? = some leaf := by
       intro li2 hh
-      obtain ⟨j, h1, h2⟩ := ih hh
-      refine ⟨j + 1, by omega, ?_⟩
+      obtain ⟨j, h1, h2, _, h4, h5, h6⟩ := ih hh
+      refine ⟨j + 1, by omega, ?_, by omega, by simpa using h4, h5, h6⟩
       have := mC_le_zero op xs li2
       simp only [List.drop_succ_cons, mC]
       omega
@@ -66,13 +73,17 @@ theorem clusterLoop_found_measure {ctx : Ctx} {op : Operation} {path : Path} {e 
     · simp only at h
       split at h
       · rename_i li2 lf2 hl
-        injection h with h1 h2 _ _
-        subst h1; subst h2
-        obtain ⟨a, b⟩ := leafLoop_found_index hl
+        injection h with h1 h2 h3 h4
+        subst h1; subst h2; subst h3; subst h4
+        obtain ⟨a, b, d⟩ := leafLoop_found_index hl
         simp only [List.length_drop] at b
-        refine ⟨0, rfl, ?_⟩
-        simp only [List.drop_zero, mC]
-        omega
+        refine ⟨0, rfl, ?_, fun _ => a, rfl, by omega, ?_⟩
+        · simp only [List.drop_zero, mC]
+          omega
+        · rw [List.getElem?_drop] at d
+          have : li + (li2 - li - 1) = li2 - 1 := by omega
+          rw [this] at d
+          exact d
       · cases h
       · cases h
       · split at h
@@ -101,13 +112,20 @@ theorem mE_drop_le (op : Operation) (es : List Endpoint) (j : Nat) : mE op (es.d
       simp only [mE]
       omega
 
-/-- **the cursors decrease lexicographically with every yield** -/
+/-- where a yielded triple sits: cluster `ci'` of endpoint `e`, leaf `li' - 1` of that cluster's table -/
+def AtPos (op : Operation) (e : Endpoint) (ci' li' : Nat) (ep cl lf : Nat) : Prop :=
+  ∃ c l, e.clusters[ci']? = some c ∧ (c.leaves (op == .invoke))[li' - 1]? = some l ∧ 0 < li' ∧
+    ep = e.id ∧ cl = c.id ∧ lf = l.id
+
+/-- **the cursors increase lexicographically with every yield** (`mE` is that order flattened) -/
 theorem endpointLoop_yield_measure {ctx : Ctx} {op : Operation} {path : Path}
     {la : Option (Nat × Nat × Nat)} {es : List Endpoint} {ci li ep cl lf : Nat} {arr : Bool} {cur : Cursor}
     (h : endpointLoop ctx op path la es ci li = .yield ep cl lf arr cur) :
     ∃ j e post, es.drop j = e :: post ∧
       cur = { endpointId := some e.id, clusterIndex := cur.clusterIndex, leafIndex := cur.leafIndex } ∧
-      mE op (e :: post) cur.clusterIndex cur.leafIndex < mE op es ci li := by
+      mE op (e :: post) cur.clusterIndex cur.leafIndex < mE op es ci li ∧
+      (j = 0 → ci < cur.clusterIndex ∨ (ci = cur.clusterIndex ∧ li < cur.leafIndex)) ∧
+      AtPos op e cur.clusterIndex cur.leafIndex ep cl lf := by
   induction es generalizing ci li with
   | nil => unfold endpointLoop at h; split at h <;> cases h
   | cons x xs ih =>
@@ -115,24 +133,33 @@ theorem endpointLoop_yield_measure {ctx : Ctx} {op : Operation} {path : Path}
     have step : ∀ ci2 li2, endpointLoop ctx op path la xs ci2 li2 = .yield ep cl lf arr cur →
         ∃ j e post, (x :: xs).drop j = e :: post ∧
           cur = { endpointId := some e.id, clusterIndex := cur.clusterIndex, leafIndex := cur.leafIndex } ∧
-          mE op (e :: post) cur.clusterIndex cur.leafIndex < mE op (x :: xs) ci li := by
+          mE op (e :: post) cur.clusterIndex cur.leafIndex < mE op (x :: xs) ci li ∧
+          (j = 0 → ci < cur.clusterIndex ∨ (ci = cur.clusterIndex ∧ li < cur.leafIndex)) ∧
+          AtPos op e cur.clusterIndex cur.leafIndex ep cl lf := by
       intro ci2 li2 hh
-      obtain ⟨j, e, post, h1, h2, h3⟩ := ih hh
-      refine ⟨j + 1, e, post, by simpa using h1, h2, ?_⟩
+      obtain ⟨j, e, post, h1, h2, h3, _, h5⟩ := ih hh
+      refine ⟨j + 1, e, post, by simpa using h1, h2, ?_, by omega, h5⟩
       have := mE_le_zero op xs ci2 li2
       simp only [mE] at h3 ⊢
       omega
     split at h
     · split at h
       · rename_i ci' li' c leaf hc
-        injection h with _ _ _ _ h5
+        injection h with g1 g2 g3 _ h5
         subst h5
-        obtain ⟨j, h1, h2⟩ := clusterLoop_found_measure hc
+        obtain ⟨j, h1, h2, h3, h4, h6, h7⟩ := clusterLoop_found_measure hc
         subst h1
-        refine ⟨0, x, xs, rfl, rfl, ?_⟩
-        simp only [List.drop_drop] at h2
-        simp only [mE]
-        omega
+        refine ⟨0, x, xs, rfl, rfl, ?_, fun _ => ?_, c, leaf, ?_, h7, h6, g1.symm, g2.symm, g3.symm⟩
+        · simp only [List.drop_drop] at h2
+          simp only [mE]
+          omega
+        · simp only
+          by_cases hj : j = 0
+          · right; exact ⟨by omega, h3 hj⟩
+          · left; omega
+        · simp only
+          rw [List.getElem?_drop] at h4
+          exact h4
       · cases h
       · cases h
       · split at h
@@ -169,7 +196,7 @@ theorem nextForPath_yield_measure {ctx : Ctx} {op : Operation} {node : Node} {pa
   · cases h
   · split at h
     · cases h
-    · obtain ⟨j, e, post, h1, h2, h3⟩ := endpointLoop_yield_measure h
+    · obtain ⟨j, e, post, h1, h2, h3, _, _⟩ := endpointLoop_yield_measure h
       rw [List.drop_drop] at h1
       have hnode : node = node.take ((resumeEndpointIndex node cur).1 + j) ++ e :: post := by
         rw [← h1, List.take_append_drop]
